@@ -1,53 +1,66 @@
 #!/usr/bin/env python3
-"""Run the registered checks against every seeded change under /verif/seeded (one at a time: apply the
-patch to /repo, run the checks of its property (+ extra ones given in CHECKS), revert) and record the
-outcome in seeded/<id>/meta.json ("detected_by", per-check exit code and first violation line).
-usage: tools/seedmatrix.py [id ...]"""
-import json, os, subprocess, sys, time
+"""Run the registered checks against every seeded change under /verif/seeded and record the outcome in
+seeded/<id>/meta.json ("detected_by", per-check exit code and first violation line).  Each seed gets its own
+scratch worktree of /repo (HEAD) under /tmp/sm with the patch applied; the checks are pointed at it through
+VERIF_REPO / VERIF_BUILD / VERIF_EVIDENCE, so /repo itself and /verif/evidence are not touched and several
+seeds run at the same time.  Worktrees and build output are removed afterwards.
+usage: tools/seedmatrix.py [-j N] [id ...]"""
+import json, os, shutil, subprocess, sys, time
+from concurrent.futures import ThreadPoolExecutor
 
 ROOT = "/verif/seeded"
 EXTRA = {"C01-a": ["C12"], "C01-b": ["C03"], "C06-b": ["C08"], "C12-a": ["C18"], "C05-a": ["C08"], "C07-a": ["C06"], "C02-a": ["C01"]}
+SM = "/tmp/sm"
 
 
-def clean():
-    subprocess.run(["git", "-C", "/repo", "checkout", "--", "."])
-    subprocess.run(["git", "-C", "/repo", "clean", "-fdq"])
+def one(sid, head):
+    d = os.path.join(ROOT, sid)
+    patch = os.path.join(d, "patch.diff")
+    mp = os.path.join(d, "meta.json")
+    meta = json.load(open(mp)) if os.path.exists(mp) else {"id": sid, "property": sid.split("-")[0]}
+    prop = sid.split("-")[0]
+    checks = [prop] + EXTRA.get(sid, [])
+    res = {"repo_head": head, "when": time.strftime("%Y-%m-%dT%H:%M:%SZ", time.gmtime()), "checks": {}}
+    wt = os.path.join(SM, sid)
+    subprocess.run(["git", "-C", "/repo", "worktree", "remove", "--force", wt], capture_output=True)
+    shutil.rmtree(wt, ignore_errors=True)
+    assert subprocess.run(["git", "-C", "/repo", "worktree", "add", "-q", "--detach", wt, "HEAD"]).returncode == 0
+    try:
+        rc = subprocess.run(["git", "-C", wt, "apply", patch], capture_output=True, text=True)
+        res["applies"] = rc.returncode == 0
+        if rc.returncode != 0:
+            res["note"] = rc.stderr[-300:]
+        else:
+            env = dict(os.environ, VERIF_REPO=wt, VERIF_BUILD=wt + "-build", VERIF_EVIDENCE=wt + "-ev")
+            for c in checks:
+                p = subprocess.run(["/verif/check", c], capture_output=True, text=True, env=env)
+                lines = [l for l in p.stdout.splitlines() if l.startswith(("violation detail", "INCONCLUSIVE"))]
+                res["checks"][c] = {"exit": p.returncode, "first": (lines or [""])[0][:400],
+                                    "violations": sum(l.startswith("VIOLATION") for l in p.stdout.splitlines())}
+    finally:
+        subprocess.run(["git", "-C", "/repo", "worktree", "remove", "--force", wt], capture_output=True)
+        shutil.rmtree(wt + "-build", ignore_errors=True)
+        shutil.rmtree(wt + "-ev", ignore_errors=True)
+    res["detected_by"] = sorted(c for c, r in res["checks"].items() if r["exit"] == 1)
+    meta["last_matrix_run"] = res
+    meta["caught_by"] = res["detected_by"]
+    json.dump(meta, open(mp, "w"), indent=1)
+    print(sid, "applies" if res["applies"] else "DOES NOT APPLY", res["detected_by"], {c: r["exit"] for c, r in res["checks"].items()}, flush=True)
+    return sid, res
 
 
 def main():
-    ids = sys.argv[1:] or sorted(os.listdir(ROOT))
-    st = subprocess.run(["git", "-C", "/repo", "status", "--short"], capture_output=True, text=True).stdout.strip()
-    if st:
-        print("/repo not clean"); return 2
+    args = sys.argv[1:]
+    j = 3
+    if args[:1] == ["-j"]:
+        j = int(args[1]); args = args[2:]
+    ids = args or sorted(os.listdir(ROOT))
+    ids = [i for i in ids if os.path.exists(os.path.join(ROOT, i, "patch.diff"))]
+    os.makedirs(SM, exist_ok=True)
     head = subprocess.run(["git", "-C", "/repo", "rev-parse", "--short", "HEAD"], capture_output=True, text=True).stdout.strip()
-    for sid in ids:
-        d = os.path.join(ROOT, sid)
-        patch = os.path.join(d, "patch.diff")
-        if not os.path.exists(patch):
-            continue
-        mp = os.path.join(d, "meta.json")
-        meta = json.load(open(mp)) if os.path.exists(mp) else {"id": sid, "property": sid.split("-")[0]}
-        prop = sid.split("-")[0]
-        checks = [prop] + EXTRA.get(sid, [])
-        res = {"repo_head": head, "when": time.strftime("%Y-%m-%dT%H:%M:%SZ", time.gmtime()), "checks": {}}
-        rc = subprocess.run(["git", "-C", "/repo", "apply", patch], capture_output=True, text=True)
-        if rc.returncode != 0:
-            res["applies"] = False
-            res["note"] = rc.stderr[-300:]
-        else:
-            res["applies"] = True
-            try:
-                for c in checks:
-                    p = subprocess.run(["/verif/check", c], capture_output=True, text=True)
-                    lines = [l for l in p.stdout.splitlines() if l.startswith(("violation detail", "INCONCLUSIVE"))]
-                    res["checks"][c] = {"exit": p.returncode, "first": (lines or [""])[0][:400], "violations": sum(l.startswith("VIOLATION") for l in p.stdout.splitlines())}
-            finally:
-                clean()
-        res["detected_by"] = sorted(c for c, r in res["checks"].items() if r["exit"] == 1)
-        meta["last_matrix_run"] = res
-        meta["caught_by"] = res["detected_by"]
-        json.dump(meta, open(mp, "w"), indent=1)
-        print(sid, "applies" if res["applies"] else "DOES NOT APPLY", res["detected_by"], {c: r["exit"] for c, r in res["checks"].items()}, flush=True)
+    with ThreadPoolExecutor(max_workers=j) as ex:
+        list(ex.map(lambda s: one(s, head), ids))
+    subprocess.run(["git", "-C", "/repo", "worktree", "prune"])
     return 0
 
 
